@@ -100,6 +100,21 @@ class ClassRef:
         return None
 
     def __call__(self, *args, **kwargs):
+        init = None
+        for c in self.mro():
+            own = next((s_ for s_ in c.node.body if isinstance(s_, ast.FunctionDef) and s_.name == "__init__"), None)
+            if own is not None:
+                init = (c, own)
+                break
+            if any("dataclass" in ast.unparse(d) for d in c.node.decorator_list):
+                break                       # a dataclass generates its own __init__ from its fields
+        if init is not None:
+            # an ordinary class: an empty instance handed to its own __init__
+            inst = Inst(self.node.name)
+            inst.__dict__["_cls"] = self
+            owner, fn = init
+            self.ev.call(Func(self.ev, owner.mod, fn, self_obj=inst), list(args), dict(kwargs))
+            return inst
         flds = self.fields()
         if len(args) > len(flds):
             raise core.AnalysisError(f"{self.node.name}() got {len(args)} positional arguments for {len(flds)} fields")
@@ -134,6 +149,13 @@ class Inst(Node):
         if m is None:
             raise AttributeError(name)
         owner, fn = m
+        decos = {ast.unparse(d) for d in fn.decorator_list}
+        if "property" in decos or "functools.cached_property" in decos or "cached_property" in decos:
+            return cls.ev.call(Func(cls.ev, owner.mod, fn, self_obj=self), [], {})
+        if "staticmethod" in decos:
+            return Func(cls.ev, owner.mod, fn, self_obj=None)
+        if "classmethod" in decos:
+            return Func(cls.ev, owner.mod, fn, self_obj=cls)
         return Func(cls.ev, owner.mod, fn, self_obj=self)
 
 
@@ -157,7 +179,9 @@ class Func:
 
 BUILTINS = {"list": list, "sorted": sorted, "enumerate": lambda *a, **k: list(enumerate(*a, **k)), "len": len, "str": str, "zip": lambda *a: list(zip(*a)),
             "range": lambda *a: list(range(*a)), "tuple": tuple, "dict": dict, "set": set, "int": int, "float": float, "bool": bool,
-            "isinstance": lambda a, b: False, "repr": repr, "min": min, "max": max, "any": any, "all": all, "print": lambda *a, **k: None}
+            "isinstance": lambda a, b: False, "repr": repr, "min": min, "max": max, "any": any, "all": all, "print": lambda *a, **k: None,
+            "getattr": getattr, "hasattr": hasattr, "sum": sum, "abs": abs, "reversed": lambda x: list(reversed(list(x))), "map": lambda f, *a: list(map(f, *a)),
+            "filter": lambda f, a: list(filter(f, a)), "frozenset": frozenset, "round": round, "divmod": divmod, "iter": iter, "next": next, "type": type}
 
 
 class MiniEval:
@@ -183,6 +207,15 @@ class MiniEval:
         for k in NODE_FIELDS:
             self.natives.setdefault(k, make_node(k))
         self.natives.setdefault("chain", type("chain", (), {"from_iterable": staticmethod(lambda it: list(itertools.chain.from_iterable(it)))}))
+        # standard-library helpers the construction code may import (evaluated by the real functions: they are pure)
+        import collections as _collections
+        import operator as _operator
+        for _nm, _v in (("namedtuple", _collections.namedtuple), ("count", itertools.count), ("product", itertools.product),
+                        ("combinations", itertools.combinations), ("repeat", itertools.repeat), ("attrgetter", _operator.attrgetter),
+                        ("itemgetter", _operator.itemgetter), ("operator", _operator), ("itertools", itertools),
+                        ("ModelConstructionError", type("ModelConstructionError", (Exception,), {})),
+                        ("ModelDefinitionError", type("ModelDefinitionError", (Exception,), {}))):
+            self.natives.setdefault(_nm, _v)
         self.depth = 0
         self.steps = 0
 
@@ -213,6 +246,10 @@ class MiniEval:
         for i, p in enumerate(params):
             if i < len(args):
                 env[p] = args[i]
+        if fn.args.vararg is not None:
+            env[fn.args.vararg.arg] = tuple(args[len(params):])
+        elif len(args) > len(params):
+            raise core.AnalysisError(f"{f.mod}.{fn.name}: {len(args)} positional arguments for {len(params)} parameters")
         for p, d in zip(params[len(params) - len(defaults):], defaults):
             if p not in env:
                 env[p] = self.ev(d, env, f.mod)
@@ -371,7 +408,7 @@ class MiniEval:
             else:
                 kwargs[k.arg] = self.ev(k.value, env, mod)
         if isinstance(f, Func):
-            return self.call(f, args, kwargs)
+            return f.ev.call(f, args, kwargs)        # a method of an object built by another evaluator keeps that evaluator's stand-ins
         try:
             return f(*args, **kwargs)
         except core.AnalysisError:
@@ -574,45 +611,155 @@ def cpp_print(node, out: List[str], templates, classname=None):
 
 # ------------------------------------------------------------------------------------------ static jinja
 def render_template(text: str, flags: Dict[str, Any]) -> str:
-    """{% if name %} ... {% else %} ... {% endif %}  -- the only Jinja constructs the repo's templates use."""
+    """the Jinja subset the repo's templates use (or may reasonably grow into): {% if [not] name %} / {% else %} / {% endif %},
+    {% macro name(params) %} ... {% endmacro %}, {{ name }} and {{ macro("literal", ...) }}, with the `-` whitespace control.  Anything else is
+    reported as outside the subset."""
     import re
-    out, stack = [], []          # stack of (active_before, cond_value, in_else)
-    pos = 0
-    active = True
-    for m in re.finditer(r"\{%-?\s*(.*?)\s*-?%\}", text):
-        if active:
-            out.append(text[pos:m.start()])
-        pos = m.end()
-        tag = m.group(1)
-        if tag.startswith("if "):
-            name = tag[3:].strip()
-            neg = False
-            if name.startswith("not "):
-                neg, name = True, name[4:].strip()
-            if not re.fullmatch(r"[A-Za-z_]\w*", name):
-                raise core.AnalysisError(f"template condition `{tag}` is outside the supported subset")
-            if name not in flags:
-                raise core.AnalysisError(f"template flag `{name}` is not supplied by FromFileTemplate(inserts=...)")
-            val = bool(flags[name]) != neg
-            stack.append((active, val))
-            active = active and val
-        elif tag == "else":
-            if not stack:
-                raise core.AnalysisError("template: else without if")
-            outer, val = stack[-1]
-            stack[-1] = (outer, not val)
-            active = outer and (not val)
-        elif tag == "endif":
-            if not stack:
-                raise core.AnalysisError("template: endif without if")
-            outer, _ = stack.pop()
-            active = outer
-        else:
-            raise core.AnalysisError(f"template tag `{{% {tag} %}}` is outside the supported subset")
-    if stack:
-        raise core.AnalysisError("template: unterminated if")
-    out.append(text[pos:])
-    res = "".join(out)
-    if "{{" in res:
-        raise core.AnalysisError("template uses {{ expression }} substitution, outside the supported subset")
-    return res
+    macros: Dict[str, Any] = {}
+
+    def strip_ws(parts_before: List[str], lstrip_next: List[bool], m):
+        if m.group(0).startswith(("{%-", "{{-")) and parts_before:
+            parts_before[-1] = parts_before[-1].rstrip()
+        lstrip_next[0] = m.group(0).endswith(("-%}", "-}}"))
+
+    # pass 1: lift macro definitions out
+    def lift(src: str) -> str:
+        out, pos = [], 0
+        lnext = [False]
+        it = list(re.finditer(r"\{%-?\s*(.*?)\s*-?%\}", src))
+        i = 0
+        while i < len(it):
+            m = it[i]
+            tag = m.group(1)
+            if tag.startswith("macro "):
+                mm = re.fullmatch(r"macro\s+([A-Za-z_]\w*)\s*\((.*?)\)", tag)
+                if not mm:
+                    raise core.AnalysisError(f"template tag `{{% {tag} %}}` is outside the supported subset")
+                depth, j = 1, i + 1
+                while j < len(it):
+                    if it[j].group(1).startswith("macro "):
+                        depth += 1
+                    elif it[j].group(1) == "endmacro":
+                        depth -= 1
+                        if depth == 0:
+                            break
+                    j += 1
+                if j >= len(it):
+                    raise core.AnalysisError("template: unterminated macro")
+                chunk = src[pos:m.start()]
+                if lnext[0]:
+                    chunk = chunk.lstrip()
+                if m.group(0).startswith("{%-"):
+                    chunk = chunk.rstrip()
+                out.append(chunk)
+                body = src[m.end():it[j].start()]
+                if m.group(0).endswith("-%}"):
+                    body = body.lstrip()
+                if it[j].group(0).startswith("{%-"):
+                    body = body.rstrip()
+                params = [p_.strip() for p_ in mm.group(2).split(",") if p_.strip()]
+                if any(not re.fullmatch(r"[A-Za-z_]\w*", p_) for p_ in params):
+                    raise core.AnalysisError(f"template macro `{mm.group(1)}` has parameters outside the supported subset")
+                macros[mm.group(1)] = (params, body)
+                pos = it[j].end()
+                lnext[0] = it[j].group(0).endswith("-%}")
+                i = j + 1
+                continue
+            i += 1
+        tail = src[pos:]
+        if lnext[0]:
+            tail = tail.lstrip()
+        out.append(tail)
+        return "".join(out)
+
+    def render(src: str, env: Dict[str, Any], depth=0) -> str:
+        if depth > 8:
+            raise core.AnalysisError("template: macro recursion too deep")
+        out: List[str] = []
+        stack = []
+        pos = 0
+        active = True
+        lnext = [False]
+        for m in re.finditer(r"\{%-?\s*(.*?)\s*-?%\}|\{\{-?\s*(.*?)\s*-?\}\}", src):
+            chunk = src[pos:m.start()]
+            if lnext[0]:
+                chunk = chunk.lstrip()
+            if active:
+                out.append(chunk)
+                strip_ws(out, lnext, m)
+            else:
+                lnext[0] = m.group(0).endswith(("-%}", "-}}"))
+            pos = m.end()
+            if m.group(2) is not None:
+                if not active:
+                    continue
+                expr = m.group(2)
+                if re.fullmatch(r"[A-Za-z_]\w*", expr):
+                    if expr not in env:
+                        raise core.AnalysisError(f"template variable `{expr}` is not supplied")
+                    out.append(str(env[expr]))
+                    continue
+                cm = re.fullmatch(r"([A-Za-z_]\w*)\s*\((.*)\)", expr)
+                if cm and cm.group(1) in macros:
+                    params, body = macros[cm.group(1)]
+                    args = []
+                    for a_ in re.findall(r'"((?:[^"\\\\]|\\\\.)*)"|\'((?:[^\'\\\\]|\\\\.)*)\'|([A-Za-z_]\w*)', cm.group(2)):
+                        if a_[2]:
+                            if a_[2] not in env:
+                                raise core.AnalysisError(f"template variable `{a_[2]}` is not supplied")
+                            args.append(env[a_[2]])
+                        else:
+                            args.append(a_[0] or a_[1])
+                    if len(args) != len(params):
+                        raise core.AnalysisError(f"template macro `{cm.group(1)}` called with {len(args)} argument(s) for {len(params)}")
+                    out.append(render(body, dict(env, **dict(zip(params, args))), depth + 1))
+                    continue
+                raise core.AnalysisError(f"template expression `{{{{ {expr} }}}}` is outside the supported subset")
+            tag = m.group(1)
+            if tag.startswith("if "):
+                name = tag[3:].strip()
+                neg = False
+                if name.startswith("not "):
+                    neg, name = True, name[4:].strip()
+                if not re.fullmatch(r"[A-Za-z_]\w*", name):
+                    raise core.AnalysisError(f"template condition `{tag}` is outside the supported subset")
+                if name not in env:
+                    raise core.AnalysisError(f"template flag `{name}` is not supplied by FromFileTemplate(inserts=...)")
+                val = bool(env[name]) != neg
+                stack.append((active, val))
+                active = active and val
+            elif tag == "else":
+                if not stack:
+                    raise core.AnalysisError("template: else without if")
+                outer, val = stack[-1]
+                stack[-1] = (outer, not val)
+                active = outer and (not val)
+            elif tag == "endif":
+                if not stack:
+                    raise core.AnalysisError("template: endif without if")
+                outer, _ = stack.pop()
+                active = outer
+            else:
+                raise core.AnalysisError(f"template tag `{{% {tag} %}}` is outside the supported subset")
+        if stack:
+            raise core.AnalysisError("template: unterminated if")
+        tail = src[pos:]
+        if lnext[0]:
+            tail = tail.lstrip()
+        out.append(tail)
+        return "".join(out)
+    # {# comments #} (with whitespace control) vanish
+    def uncomment(src: str) -> str:
+        out, pos = [], 0
+        for m in re.finditer(r"\{#-?.*?-?#\}", src, flags=re.S):
+            chunk = src[pos:m.start()]
+            if m.group(0).startswith("{#-"):
+                chunk = chunk.rstrip()
+            out.append(chunk)
+            pos = m.end()
+            if m.group(0).endswith("-#}"):
+                rest = src[pos:]
+                pos += len(rest) - len(rest.lstrip())
+        out.append(src[pos:])
+        return "".join(out)
+    return render(lift(uncomment(text)), dict(flags))
